@@ -50,7 +50,8 @@ func setPropsFromMapRecursive(val reflect.Value, updates map[string]any) (staged
 			fieldVal := val.Field(i)
 
 			jsonTag, _ := field.Tag.Lookup("json")
-			if jsonTag != key {
+			if jsonTag == "" || jsonTag != key {
+				// (An empty key must not select the untagged, unexported fields of a setting.)
 				continue
 			}
 
